@@ -67,6 +67,7 @@ impl std::error::Error for SparseVectorError {}
 /// assert_eq!(sparse.get(0), 0.0); // Contextual zero (in shell, not stored)
 /// ```
 #[derive(Debug, Clone, PartialEq, Serialize, Deserialize)]
+#[serde(try_from = "SparseVectorRepr")]
 pub struct SparseVector {
     /// Total dimension - the boundary/shell of the vector space
     dimension: usize,
@@ -74,6 +75,44 @@ pub struct SparseVector {
     positions: Vec<u32>,
     /// Non-zero values (parallel to positions)
     values: Vec<f32>,
+}
+
+/// Wire representation; converted (and validated) into [`SparseVector`] on deserialization so
+/// that bytes from disk or the network can never produce a vector that breaks the invariants
+/// `to_dense`, `get` and the merge loops rely on.
+#[derive(Deserialize)]
+struct SparseVectorRepr {
+    dimension: usize,
+    positions: Vec<u32>,
+    values: Vec<f32>,
+}
+
+impl TryFrom<SparseVectorRepr> for SparseVector {
+    type Error = String;
+
+    fn try_from(r: SparseVectorRepr) -> Result<Self, Self::Error> {
+        if r.dimension > MAX_DIMENSION {
+            return Err(format!("dimension {} exceeds maximum {MAX_DIMENSION}", r.dimension));
+        }
+        if r.positions.len() != r.values.len() {
+            return Err(format!(
+                "{} positions but {} values",
+                r.positions.len(),
+                r.values.len()
+            ));
+        }
+        if !r.positions.windows(2).all(|w| w[0] < w[1]) {
+            return Err("positions not strictly sorted".to_string());
+        }
+        if r.positions.last().is_some_and(|&p| p as usize >= r.dimension) {
+            return Err(format!("position out of bounds for dimension {}", r.dimension));
+        }
+        Ok(Self {
+            dimension: r.dimension,
+            positions: r.positions,
+            values: r.values,
+        })
+    }
 }
 
 impl SparseVector {
